@@ -5,8 +5,9 @@ CONSTANTS
   MaxBatch = 4
   MaxKills = 2
   MaxCycles = 3
-  DedupModes = {"none", "tags", "shrink"}
+  DedupModes = {"none", "tags", "shrink", "clones", "clones_tags"}
   TagUnion = TRUE
+  PlainDistinct = FALSE
   RecoverOnCrash = TRUE
   ListAllEntries = FALSE
   Emit = FALSE
